@@ -290,7 +290,7 @@ public:
 		std::cout << "fraction bits   : " << to_binary(raw, true) << std::endl;
 #endif
 		// saturate to minpos/maxpos with uncertainty bit set to 1
-		if (exponent > MAX_EXP) {
+		if (exponent >= MAX_EXP) {
 			if (s) maxneg(); else maxpos(); // saturate the maxpos or maxneg
 			this->set(0);
 			return *this;
@@ -447,7 +447,7 @@ public:
 		std::cout << "fraction bits   : " << to_binary(raw, true) << std::endl;
 #endif
 		// saturate to minpos/maxpos with uncertainty bit set to 1
-		if (exponent > MAX_EXP) {	
+		if (exponent >= MAX_EXP) {	
 			if (s) maxneg(); else maxpos(); // saturate the maxpos or maxneg
 			this->set(0); // and set the uncertainty bit to reflect it is (maxpos, inf) or (maxneg, -inf)
 			return *this;
